@@ -20,7 +20,7 @@ RULE = ("(compute) files of sizes {0, 1, 2^20-1, 2^20, 2^20+1, 2*2^20, 3*2^20+5}
         "and pre-productmd documents: loaded table must equal the text entry by entry, or the document must be rejected "
         "iff it contains an unrecognised bare value. (image) add_checksum sequences with equal, different and empty values "
         "against a dict model. Non-trivial = file >= 1 MiB or non-canonical path / section mixing >= 2 entry styles / "
-        "sequence with a conflicting add; distinct = SHA-1 of the case. Each file is rewritten with different content of the same size and the same mtime and hashed again in another tree (no stale digest).")
+        "sequence with a conflicting add; distinct = SHA-1 of the case. Each file is rewritten with different content of the same size and the same mtime and hashed again in another tree (no stale digest). Adds that fail while computing (missing file, no root, unknown algorithm) leave the table unchanged; every path is looked up through checksums[path]; type names in any spelling.")
 ASSUMPTIONS = ["hashlib one-shot digests are the standard digests", "XOF algorithms (shake_*) have no fixed-length standard digest and are excluded (counted)"]
 FLOORS = {"compute": 60, "sections": 300, "sections:rejected": 100, "image-add-checksum": 200}
 
